@@ -158,6 +158,10 @@ def run_bus(scn):
     accepted, rejected = [], 0
     checks = 0
     space = 1 << aw
+
+    def P2(reg):
+        """decoded window of a region: its size rounded up to a power of two (the statement; not read from the object under test)"""
+        return 1 << max(0, (reg.size - 1).bit_length())
     for rq in scn["reqs"]:
         try:
             if rq["op"] == "io":
@@ -185,19 +189,19 @@ def run_bus(scn):
             for n1, r1 in regs[i + 1:]:
                 if r0.linker or r1.linker:
                     continue
-                a0, b0 = r0.origin, r0.origin + r0.size_pow2
-                a1, b1 = r1.origin, r1.origin + r1.size_pow2
+                a0, b0 = r0.origin, r0.origin + P2(r0)
+                a1, b1 = r1.origin, r1.origin + P2(r1)
                 checks += 1
                 if a0 < b1 and a1 < b0:
                     V("regions_overlap", "%s/%s" % (n0, n1), "decoded windows overlap: %s [%#x,%#x) and %s [%#x,%#x)" % (n0, a0, b0, n1, a1, b1))
         if rq["op"] == "region" and rq["origin"] is None:
             r = bus.regions[rq["name"]]
             checks += 3
-            if r.origin % r.size_pow2:
-                V("auto_region_unaligned", rq["name"], "automatically allocated region at %#x is not aligned to its decoded size %#x" % (r.origin, r.size_pow2))
-            if r.origin + r.size_pow2 > space:
+            if r.origin % P2(r):
+                V("auto_region_unaligned", rq["name"], "automatically allocated region at %#x is not aligned to its decoded size %#x" % (r.origin, P2(r)))
+            if r.origin + P2(r) > space:
                 V("auto_region_outside_space", rq["name"], "automatically allocated region [%#x,%#x) lies outside the %d-bit address space"
-                  % (r.origin, r.origin + r.size_pow2, aw))
+                  % (r.origin, r.origin + P2(r), aw))
             if not rq["cached"]:
                 inside = any(io.origin <= r.origin and r.origin + r.size <= io.origin + io.size for io in bus.io_regions.values())
                 if not inside:
@@ -222,23 +226,24 @@ def run_bus(scn):
             decs = None
             break
         checks += 1
-        if r.origin % r.size_pow2:
-            V("unaligned_region_built", n, "region %s origin %#x is not aligned to its decoded size %#x and was not rejected" % (n, r.origin, r.size_pow2))
+        if r.origin % P2(r):
+            V("unaligned_region_built", n, "region %s origin %#x is not aligned to its decoded size %#x and was not rejected" % (n, r.origin, P2(r)))
         decs.append((n, r, f))
     if decs:
         probes = set(scn["probe_addrs"]) | {0, space - 1}
         for n, r, f in decs:
-            probes |= {r.origin - 1, r.origin, r.origin + r.size_pow2 - 1, r.origin + r.size_pow2, r.origin ^ (1 << (aw - 1)), r.origin + (1 << 32)}
+            probes |= {r.origin - 1, r.origin, r.origin + r.size - 1, r.origin + r.size // 2 + 1, r.origin + P2(r) - 1, r.origin + P2(r), r.origin ^ (1 << (aw - 1)),
+                       r.origin + (1 << 32)}
         for addr in sorted(x for x in probes if 0 <= x < space):
             hits = []
             for n, r, f in decs:
                 e = f(a)
                 ev.signal_values[a] = addr >> wshift
                 val = bool(ev.eval(e) if not isinstance(e, (bool, int)) else e)
-                exp = r.origin <= addr < r.origin + r.size_pow2
+                exp = r.origin <= addr < r.origin + P2(r)
                 checks += 1
                 if val != exp:
-                    V("decoder_window", n, "decoder of %s [%#x,%#x) %s address %#x" % (n, r.origin, r.origin + r.size_pow2, "accepts" if val else "rejects", addr))
+                    V("decoder_window", n, "decoder of %s [%#x,%#x) %s address %#x" % (n, r.origin, r.origin + P2(r), "accepts" if val else "rejects", addr))
                 if val:
                     hits.append(n)
             if len(hits) > 1:
